@@ -1550,6 +1550,101 @@ fn moved_difference_trace(rng: &mut Rng, s: &SizeInfo) -> Option<Trace> {
     Some(Trace { prop: "C03".into(), producer: Producer::Raw { size: s.idx, data }, faults })
 }
 
+/// Nested locators. Block B carries v errors, block A carries u > v errors (both within the radius), and A's locator
+/// polynomial shares its v + 1 lowest - or its v + 1 highest - coefficients with B's (in either convention: roots at the
+/// locators or at their inverses). Found by search: random completions of B's polynomial until one splits into
+/// distinct in-block roots. Anything that keys a cache of per-block results on a PREFIX of the locator, or compares
+/// two locators only as far as the shorter one reaches, confuses the two blocks.
+fn nested_locator_trace(ctx: &Ctx, rng: &mut Rng, s: &SizeInfo) -> Option<Trace> {
+    if s.blocks < 2 || !ctx.gf_ok[s.idx] {
+        return None;
+    }
+    let gf = &ctx.gf;
+    let t = s.t();
+    let nb_min = s.block_len(s.blocks - 1);
+    let v = rng.range(1, 3.min(t - 1));
+    let u = (v + rng.range(1, 2)).min(t);
+    if u <= v {
+        return None;
+    }
+    let inverse = rng.bit();
+    let high = rng.bit();
+    // B's roots
+    let degs_b = rng.sample_distinct(nb_min, v);
+    let root_of = |d: usize| -> u8 { if inverse { gf.inv(gf.alpha_pow(d)) } else { gf.alpha_pow(d) } };
+    // monic polynomial with the given roots, lowest coefficient first
+    let mut pb: Vec<u8> = vec![1];
+    for d in &degs_b {
+        let r = root_of(*d);
+        let mut np = vec![0u8; pb.len() + 1];
+        for (i, c) in pb.iter().enumerate() {
+            np[i + 1] ^= *c;
+            np[i] ^= gf.mul(*c, r);
+        }
+        pb = np;
+    }
+    // candidate roots: all in-block locators
+    let cand: Vec<(usize, u8)> = (0..nb_min).map(|d| (d, root_of(d))).collect();
+    for _ in 0..1500 {
+        // A's polynomial (lowest first, degree u, monic)
+        let mut pa = vec![0u8; u + 1];
+        if high {
+            // x^(u-v) * pb + (random of degree < u - v): the v + 1 highest coefficients agree
+            for (i, c) in pb.iter().enumerate() {
+                pa[i + (u - v)] = *c;
+            }
+            for c in pa.iter_mut().take(u - v) {
+                *c = rng.byte();
+            }
+        } else {
+            // pb + x^(v+1) * random, made monic of degree u: the v + 1 lowest coefficients agree
+            for (i, c) in pb.iter().enumerate() {
+                pa[i] = *c;
+            }
+            for c in pa.iter_mut().take(u).skip(v + 1) {
+                *c = rng.byte();
+            }
+            pa[u] = 1;
+        }
+        if pa[0] == 0 {
+            continue;
+        }
+        let mut roots: Vec<usize> = Vec::new();
+        for (d, r) in &cand {
+            // evaluate lowest-first
+            let mut acc = 0u8;
+            for c in pa.iter().rev() {
+                acc = gf.mul(acc, *r) ^ *c;
+            }
+            if acc == 0 {
+                roots.push(*d);
+                if roots.len() > u {
+                    break;
+                }
+            }
+        }
+        if roots.len() != u {
+            continue;
+        }
+        let a_blk = rng.below(s.blocks);
+        let b_blk = if rng.chance(1, 2) { (a_blk + 1) % s.blocks } else { (a_blk + s.blocks - 1) % s.blocks };
+        if a_blk == b_blk {
+            return None;
+        }
+        let mut faults = Vec::new();
+        let pos_a = s.block_positions(a_blk);
+        let pos_b = s.block_positions(b_blk);
+        for d in &roots {
+            faults.push(Fault::new("cw_twin", Op::CwXor { pos: pos_a[pos_a.len() - 1 - *d] as u32, mask: rng.nonzero_byte() }));
+        }
+        for d in &degs_b {
+            faults.push(Fault::new("cw_twin", Op::CwXor { pos: pos_b[pos_b.len() - 1 - *d] as u32, mask: rng.nonzero_byte() }));
+        }
+        return Some(Trace { prop: "C03".into(), producer: Producer::Raw { size: s.idx, data: raw_data(rng, s) }, faults });
+    }
+    None
+}
+
 /// Between two codewords. B is the codeword that differs from the sent codeword A in a few data codewords of one
 /// block (and therefore in nearly all EC codewords of that block: a minimum-distance neighbour when it is one data
 /// codeword). The medium overwrites a SUBSET of the positions where A and B differ with B's values: within the
@@ -2749,6 +2844,11 @@ fn gen_c03(ctx: &Ctx, rng: &mut Rng, i: u64) -> Trace {
             return t;
         }
     }
+    if s.blocks > 1 && rng.chance(1, 25) {
+        if let Some(t) = nested_locator_trace(ctx, rng, s) {
+            return t;
+        }
+    }
     let (producer, msg_data) = producer_for_size_d(rng, s, 25);
     let mut faults = Vec::new();
     let t = gen_c03_faults(ctx, rng, s, &mut faults);
@@ -2868,6 +2968,12 @@ fn gen_c03_faults(ctx: &Ctx, rng: &mut Rng, s: &SizeInfo, faults_out: &mut Vec<F
 
 fn gen_c09(ctx: &Ctx, rng: &mut Rng, i: u64) -> Trace {
     let s = &SIZES[pick_size(rng, i, true)];
+    if s.blocks > 1 && rng.chance(1, 30) {
+        if let Some(mut t) = nested_locator_trace(ctx, rng, s) {
+            t.prop = "C09".into();
+            return t;
+        }
+    }
     let producer = producer_for_size(rng, s, 5);
     let mut faults = Vec::new();
     if rng.chance(1, 40) {
